@@ -206,6 +206,37 @@ def rand_nested_query(rng):
     return {"op": "nestedchildren", "p": p, "q": {"op": "and", "kids": [p, sub()], "b4": 4}}
 
 
+def family_docs(rng, n):
+    """groups of one parent and 0..3 children: the parent carries the marker term `b` in its title"""
+    docs, left = {}, 0
+    for i in range(n):
+        body = [rand_term(rng, 2, 1) for _ in range(rng.randrange(0, 4))]
+        if left == 0:
+            docs["k%02d" % i] = {"t": {"title": [[1]], "body": body}, "n": {}, "b4": 4}
+            left = rng.choice([0, 1, 1, 2, 2, 3])
+        else:
+            docs["k%02d" % i] = {"t": {"title": [[2]] if rng.random() < 0.5 else [], "body": body}, "n": {}, "b4": 4}
+            left -= 1
+    return docs
+
+
+def family_query(rng):
+    """NestedParent / NestedChildren over the marker of family_docs, alone or under one connective"""
+    p = {"op": "term", "f": "title", "t": [1], "b4": 4}
+    bt = lambda: {"op": "term", "f": "body", "t": rand_term(rng, 2, 1), "b4": rng.choice([4, 4, 8])}
+    sub = rng.choice([bt(), bt(), {"op": "or", "kids": [bt(), bt()], "b4": 4}, {"op": "every", "f": "", "b4": 4}])
+    if rng.random() < 0.5:
+        aq = {"op": "nestedparent", "p": p, "q": sub}
+    else:
+        aq = {"op": "nestedchildren", "p": p, "q": {"op": "and", "kids": [p, sub], "b4": 4}}
+    if rng.random() < 0.3:
+        other = bt()
+        op = rng.choice(["and", "or", "andnot"])
+        aq = {"op": "andnot", "a": aq, "b": other} if op == "andnot" else \
+            {"op": op, "kids": [aq, other] if rng.random() < 0.5 else [other, aq], "b4": 4}
+    return aq
+
+
 def rand_span_query(rng, depth, f=None, nletters=2, maxlen=2):
     """A random span query tree over one field (inputs only)."""
     f = f or rng.choice(TEXT_FIELDS)
